@@ -607,6 +607,29 @@ def failed_from_log(res):
     return out or res["failed"]
 
 
+def parse_axioms(log, names):
+    """Print Assumptions blocks in order of appearance -> {theorem: [axiom names]}.  An axiom name
+    starts in column 0; its type may follow on the same line or on indented continuation lines."""
+    import re
+    blocks, cur = [], None
+    for line in log.splitlines():
+        if line.startswith("Closed under the global context"):
+            blocks.append([])
+            cur = None
+        elif line.startswith("Axioms:"):
+            cur = []
+            blocks.append(cur)
+        elif cur is not None:
+            m = re.match(r"^([A-Za-z_][A-Za-z0-9_.']*)\s*(:|$)", line)
+            if m and not line.startswith(("COQ", "File ", "make")):
+                cur.append(m.group(1))
+            elif line.startswith(" ") or not line.strip():
+                continue
+            else:
+                cur = None
+    return {(names[i] if i < len(names) else "block%d" % i): sorted(set(b)) for i, b in enumerate(blocks)}
+
+
 def regenerate():
     import importlib
     import gen_scalar
@@ -631,6 +654,8 @@ def run_part(ctx, which):
     # 2. proofs against the regenerated definitions
     pid = "%s_scalar" % which
     res = pv.check_props(pid)
+    if res["ok"]:
+        res["axioms"] = parse_axioms(res["log"], res["theorems"])
     t1 = time.time()
     cov.update({"obligations": res["obligations"], "discharged": res["discharged"], "theorems": res["theorems"],
                 "non_vacuity_examples": res["examples"], "axioms_per_theorem": res["axioms"],
@@ -727,6 +752,22 @@ def run_part(ctx, which):
             ctx.assumptions.append(a)
     return {"ok": res["ok"] and not mine and not terrors, "proof_ok": res["ok"], "failed_theorems": res["failed"],
             "problems": mine, "stats": run.stats, "seconds": round(time.time() - t0, 1)}
+
+
+def replay(ctx, obj):
+    """Re-run the case of a replay file written by run_part on the current tree (called by the
+    owning check's replay, or: python3 -c 'import engines.scalar' ...).  Returns 1 if it still fails."""
+    case = obj.get("case")
+    if not case:
+        print(json.dumps(obj, indent=1)[:3000])
+        return 0
+    impl = pv.build_harness("plain", "scalar_drv")
+    rc, out = pv.run_lines(impl, [case])
+    print("case     : %s" % case)
+    print("impl     : %s" % (out[0] if out else "<no output>"))
+    print("expected : %r   (%s)" % (obj.get("expected"), obj.get("oracle", obj.get("what", ""))))
+    print("recorded : %r" % (obj.get("got"),))
+    return 0
 
 
 if __name__ == "__main__":
